@@ -292,6 +292,44 @@ def random_case(sess, rng, tier_small=False):
     return run.ops
 
 
+def burst_case(sess, rng):
+    """Several requests in flight, then ALL outstanding answers (or failures) registered back to back without polling the
+    engine in between, then poll to the end: what a reply carries must not depend on the engine having been polled."""
+    n = rng.choice([3, 4, 5, 6])
+    kind = rng.choice(["getrec", "getrec", "getprov", "find"])
+    qu = Query(rng, rng.randrange(0, 6), kind, n, True)
+    qu.cands = rng.sample(range(1, n + 1), min(n, rng.choice([3, 3, 4])))
+    qu.quorum = rng.choice(["one", "1", "2"])
+    for p in range(0, n + 3):
+        qu.behaviour[p] = rng.choice(["ok"] * 5 + ["fail"])
+        if kind == "getrec" and rng.random() < 0.8:
+            qu.value[p] = (rng.randrange(1, 9), 0)
+    run = begin(sess, rng, [qu], rng.choice([1, 2, 20]), 3, rng.choice([0, 10]))
+    outstanding, now, done = [], 0, False
+    for _round in range(8):
+        for _ in range(4):
+            o = run.do(f"next now={now}")
+            _, word, a = parse_obs(o)
+            if word == "send":
+                outstanding.append(int(a["peer"]))
+            elif word in TERMINALS:
+                done = True
+                break
+            else:
+                break
+        if done or run.dead or not outstanding:
+            break
+        rng.shuffle(outstanding)
+        for p in outstanding:
+            run.do(qu.answer_op(p))
+            if rng.random() < 0.15:
+                run.do(qu.answer_op(p))          # a second event for the same exchange
+        outstanding = []
+    run.do(f"next now={now}")
+    run.do(f"dump q={qu.q}")
+    return run.ops
+
+
 def stale_case(sess, rng, par=3, nstale=1, ncands=12, timeout=3):
     """DESIGN §8-m: requests older than the peer timeout, then repeated next_action calls."""
     qu = Query(rng, 0, "find", ncands, True)
@@ -405,6 +443,8 @@ def gen_cases(rng, tier):
         n = {"quick": 500, "thorough": 30000, "search": 3000}[tier]
         for _ in range(n // 25):
             yield malformed_case(sess, rng)
+        for _ in range(n // 10):
+            yield burst_case(sess, rng)
         for _ in range(n):
             yield random_case(sess, rng)
         if tier in ("thorough", "search"):
